@@ -521,6 +521,10 @@ func (ch *Chain) Exec(e M) Outcome {
 			return Outcome{OK: false, Err: err.Error()}
 		}
 		return Outcome{OK: true, Resp: M{"same": same}}
+	case "Query":
+		if out, ok := ch.queryBridge(e); ok {
+			return out
+		}
 	}
 	if out, ok := ch.execVal(e); ok {
 		return out
@@ -529,6 +533,52 @@ func (ch *Chain) Exec(e M) Outcome {
 		return out
 	}
 	panic("unknown event type " + ty)
+}
+
+// queryBridge answers the gRPC queries of the bridge part of x/opchild (validator queries: queryVal).
+func (ch *Chain) queryBridge(e M) (Outcome, bool) {
+	f, ctx, c := ch.F, ch.Ctx, ch.C
+	fail := func(err error) (Outcome, bool) { return Outcome{OK: false, Err: err.Error()}, true }
+	switch absx.Str(e["q"]) {
+	case "NextL1Sequence":
+		r, err := f.Querier.NextL1Sequence(ctx, &opchildtypes.QueryNextL1SequenceRequest{})
+		if err != nil {
+			return fail(err)
+		}
+		return Outcome{OK: true, Resp: M{"v": int64(r.NextL1Sequence)}}, true
+	case "NextL2Sequence":
+		r, err := f.Querier.NextL2Sequence(ctx, &opchildtypes.QueryNextL2SequenceRequest{})
+		if err != nil {
+			return fail(err)
+		}
+		return Outcome{OK: true, Resp: M{"v": int64(r.NextL2Sequence)}}, true
+	case "BaseDenom":
+		r, err := f.Querier.BaseDenom(ctx, &opchildtypes.QueryBaseDenomRequest{Denom: c.Denom(absx.Str(e["denom"]))})
+		if err != nil {
+			return fail(err)
+		}
+		return Outcome{OK: true, Resp: M{"v": c.DenomName(r.BaseDenom)}}, true
+	case "BridgeInfo":
+		r, err := f.Querier.BridgeInfo(ctx, &opchildtypes.QueryBridgeInfoRequest{})
+		if err != nil {
+			return fail(err)
+		}
+		addr := r.BridgeInfo.BridgeAddr
+		if len(addr) > len("bridge-addr-") && addr[:len("bridge-addr-")] == "bridge-addr-" {
+			addr = addr[len("bridge-addr-"):]
+		}
+		return Outcome{OK: true, Resp: M{"id": int64(r.BridgeInfo.BridgeId), "addr": addr, "chain": r.BridgeInfo.L1ChainId, "client": r.BridgeInfo.L1ClientId, "oracle": r.BridgeInfo.BridgeConfig.OracleEnabled}}, true
+	case "Params":
+		if ch.V != nil {
+			return Outcome{}, false // the validator model answers it (queryVal)
+		}
+		r, err := f.Querier.Params(ctx, &opchildtypes.QueryParamsRequest{})
+		if err != nil {
+			return fail(err)
+		}
+		return Outcome{OK: true, Resp: ch.paramsName(r.Params)}, true
+	}
+	return Outcome{}, false
 }
 
 type logMeter struct {
